@@ -39,6 +39,50 @@ func clRestoreErrors(c *Ctx) {
 	if n < 10 {
 		undecidedf("restore path: only %d error-returning calls found", n)
 	}
+	clMandatoryManifest(c)
+}
+
+// data/files.json is the one manifest every backup has: no path continues
+// into the restore unless reading it succeeded.
+func clMandatoryManifest(c *Ctx) {
+	p := c.P
+	fn := p.Func("nitro", "Nitro", "LoadFromDisk")
+	fi := p.Info(fn)
+	nb := p.Func("skiplist", "", "NewBuilderWithConfig")
+	var read ssa.Instruction
+	for _, in := range fi.Instrs {
+		cc := callOf(in)
+		if cc == nil || cc.StaticCallee() == nil {
+			continue
+		}
+		if n := cc.StaticCallee().String(); n != "io/ioutil.ReadFile" && n != "os.ReadFile" {
+			continue
+		}
+		lbl := pathLabel(cc.Args[0])
+		if strings.HasSuffix(lbl, "files.json") && strings.Contains(lbl, "data") {
+			read = in
+		}
+	}
+	if read == nil {
+		undecidedf("LoadFromDisk: read of data/files.json not found")
+	}
+	ev, _ := errResult(read)
+	for _, b := range p.CallSites(fn, nb) {
+		ok := ev != nil && fi.Guarded(b, func(v ssa.Value, val bool) bool {
+			cmp, isC := cmpOf(v, val)
+			if !isC || cmp.Op != token.EQL {
+				return false
+			}
+			x := cmp.X
+			if isNilConst(x) {
+				x = cmp.Y
+			} else if !isNilConst(cmp.Y) {
+				return false
+			}
+			return fi.resolveCell(x) == ev || x == ev
+		})
+		c.Check(ok, fn, read, "the restore proceeds only if data/files.json was read", "a backup directory without data/files.json (process died before the manifests were written) is restored as an empty snapshot with a nil error")
+	}
 }
 
 // unmarshalTargets: local cells passed (by address) to json.Unmarshal in fn and
